@@ -22,6 +22,9 @@ def generate(seed, tier="quick"):
             op["pool"] = rnd.choice([{"kind": "serial"}, {"kind": "sim", "size": rnd.randint(1, 6)}])
             op["rng_seed"] = rnd.getrandbits(30)
     oid = len(prog["ops"])
+    if rnd.random() < 0.04 and len(prog["ops"]) >= 2:
+        # the user sets up an MCMC run between two sampling calls (documented workflow on the same data object)
+        prog["ops"].insert(1, {"id": 900, "op": "helper_setup_mcmc", "data": prog["ops"][0].get("data", 0), "lib": 0, "rng_seed": rnd.getrandbits(20), "role": "mcmc-setup"})
     if rnd.random() < 0.6:
         p, pname = sampling.gen_path(rnd)
         op = {"id": oid, "op": "iterative", "data": rnd.randrange(len(cfg["datasets"])), "lib": 0, "joker": "main", "role": "target"}
@@ -224,4 +227,8 @@ def evaluate(dep, program):
             break
         seen[k2] = d["gen"]
     probes["draw_blocks_checked_for_repeats"] = len(seen)
+    for j_, why_ in dep.world.data_modified_in_place():
+        v.append(Violation(PROPERTY, "C03.input-modified", "C03:data-object-modified-in-place-by-a-call", "data set %d: %s; the covariance used for later draws is no longer the user's" % (j_, why_)))
+    if any(r["op"]["op"] == "helper_setup_mcmc" and r["raised"] is None for r in dep.history):
+        probes["setup_mcmc_in_history"] = 1
     return v, probes
